@@ -16,7 +16,7 @@ from harness.common import cps, uncps
 from harness.props.c01 import all_texts
 from harness.props import c03, c10, c19
 
-BRIDGE = ('Gemato.Bridge.Cli', 'Gemato.Bridge.SrcCli', 'Gemato.Bridge.SrcText', 'Gemato.Bridge.SrcVerify', 'Gemato.Bridge.SrcLoader', 'Gemato.Bridge.SrcWalk', 'Gemato.Bridge.SrcUpdate')
+BRIDGE = ('Gemato.Bridge.Cli', 'Gemato.Bridge.SrcCli', 'Gemato.Bridge.SrcText', 'Gemato.Bridge.SrcVerify', 'Gemato.Bridge.SrcLoader', 'Gemato.Bridge.SrcWalk', 'Gemato.Bridge.SrcUpdate', 'Gemato.Bridge.SrcCodec', 'Gemato.Bridge.SrcProfile', 'Gemato.Bridge.SrcFindTop', 'Gemato.Bridge.SrcHash')
 PROPS = ['Gemato.Props.C18', 'Gemato.Props.C18b']
 PROFILES = ['default', 'ebuild', 'old-ebuild']
 ERRNO_NAMES = {errno.ENOENT: 'ENOENT', errno.ENOTDIR: 'ENOTDIR', errno.EISDIR: 'EISDIR'}
